@@ -18,6 +18,7 @@ EXPLANATION = (
     "C03.7 contents: calloc zeroes the whole request unless the block is null or its own fresh kernel mapping and no other condition guards the zeroing, alloc_zeroed goes through calloc, a moving reallocation copies min(old, new) bytes old->new before freeing the old block; "
     "C03.8 a failed in-place resize mutates nothing: no store or mutating call in try_realloc_chunk lies on a path that then returns null. "
     "C03.10 inner_malloc / inner_realloc (natural alignment only) are reached only under align <= MALLOC_ALIGNMENT; C03.9 an over-aligned request reserves at least request2size(bytes) + alignment + MIN_CHUNK_SIZE - CHUNK_OVERHEAD and splits its tail only when a whole chunk remains. "
+    "C03.11 in free and dispose_chunk every path after `self.top = p` tests p == dv and clears dv/dvsize when it holds (a chunk merged into top is retired as designated victim). "
     "NOT decided: alignment, disjointness and intactness of live blocks - invariants of the bin/tree/segment shape over call histories (the module's own check_malloc_state is a run-time checker); no structural rule in reach establishes them.")
 ASSUMPTIONS = ["dlmalloc's heap-shape invariants hold (not established here)", "MUNMAP returns 0 or -errno"]
 
@@ -279,6 +280,40 @@ def run_one(ck, prog):
             ok = isinstance(MA, int) and bool(bounds) and min(bounds) <= MA
             ck.ob("C03.10", f"{nm}|plain-path-only-for-natural-alignment", ok, fn=f10["path"], site=c10.site(bb),
                   detail=f"{plain} only guarantees MALLOC_ALIGNMENT ({MA}) - it may be used only under align <= {MA}; dominating bounds on the alignment: {bounds}. A looser bound hands out / moves blocks that are not aligned as requested")
+    # ---- C03.11 a chunk that becomes (part of) top stops being the designated victim ------------------------------------------------------------
+    # free / dispose_chunk first merge the chunk with a free predecessor - which may be dv - and then, if the successor is top, make the
+    # merged chunk the new top.  On that edge `p == dv` must be tested and dv / dvsize cleared, else dv and top name the same memory and
+    # two later requests are served from it.
+    from .c04 import field_write_blocks
+    for nm in ("free", "dispose_chunk"):
+        f11 = prog.fns.get(DL + nm)
+        if not ck.anchor("C03.11", nm, f11):
+            continue
+        c11 = prog.ctx(f11)
+        cfg11 = c11.cfg
+        topw = sorted(field_write_blocks(c11, ("top",)))
+        dvw, dvsw = field_write_blocks(c11, ("dv",)), field_write_blocks(c11, ("dvsize",))
+        is_dv = lambda z: z[0] == "field" and z[2] == "dv"
+        tests, eq_edges = set(), []
+        for sb in cfg11.live_blocks():
+            if cfg11.term(sb)["k"] != "switch":
+                continue
+            for e in cfg11.succ[sb]:
+                for f in c11.edge_facts(e):
+                    if f[0] == "cmp" and f[1] in ("Eq", "Ne") and (mentions(f[2], c11.prov, is_dv) != mentions(f[3], c11.prov, is_dv)):
+                        tests.add(sb)
+                        if f[1] == "Eq":
+                            eq_edges.append(e)
+        ck.floor("C03.11", f"{nm}: stores to self.top", len(topw), 1)
+        for w in topw:
+            r = cfg11.reachable_from(w, avoid=tests)
+            leak = [rb for rb in cfg11.return_blocks() if rb in r]
+            after = [e for e in eq_edges if e.src in cfg11.reachable_from(w)]
+            cleared = bool(after) and all(any(cfg11.edge_dominates(e, b) for b in dvw) and any(cfg11.edge_dominates(e, b) for b in dvsw) for e in after)
+            path = cfg11.find_path(w, lambda b: b in leak, avoid=tests) if leak else None
+            ck.ob("C03.11", f"{nm}|chunk-made-top-is-retired-as-dv", not leak and cleared, fn=f11["path"], site=c11.site(w), path=cfg11.render_path(path) if path else None,
+                  detail="after `self.top = p` every path must test `p == self.dv` and clear dv and dvsize when it holds: p may have absorbed the designated victim while consolidating backwards, and a dv left pointing into top is handed out a second time")
+
     # ---- C03.8 a failed in-place resize leaves the heap untouched ------------------------------------------------------------------------------
     trc = prog.fns.get(DL + "try_realloc_chunk")
     if ck.anchor("C03.8", "try_realloc_chunk", trc):
